@@ -560,6 +560,10 @@ func (f *OrefaFile) Truncate(size int64) error {
 		return &fs.PathError{Op: op, Path: f.name, Err: fs.ErrClosed}
 	}
 
+	if size < 0 {
+		return &fs.PathError{Op: op, Path: f.name, Err: f.vfs.err.InvalidArgument}
+	}
+
 	nd := f.nd
 	if nd.mode.IsDir() {
 		err := error(avfs.ErrInvalidArgument)
@@ -577,10 +581,6 @@ func (f *OrefaFile) Truncate(size int64) error {
 		}
 
 		return &fs.PathError{Op: op, Path: f.name, Err: err}
-	}
-
-	if size < 0 {
-		return &fs.PathError{Op: op, Path: f.name, Err: f.vfs.err.InvalidArgument}
 	}
 
 	nd.mu.Lock()
